@@ -133,7 +133,7 @@ func newC13Sys() *c13Sys {
 }
 
 // c13Kinds: request kinds chosen to collide on bytesPool, bufPool and the gzip pools.
-var c13Kinds = []string{"http-json", "http-json-gzip", "http-body", "http-upload", "grpc", "grpc-gzip", "web", "http-stream-gzip", "http-stream-2in1"}
+var c13Kinds = []string{"http-json", "http-json-gzip", "http-body", "http-upload", "grpc", "grpc-gzip", "web", "http-stream-gzip", "http-stream-2in1", "web-gzip", "grpc-gzip-corrupt", "grpc-gzip-oversize", "http-gzip-corrupt"}
 
 func c13Payload(thread int, size int) []byte {
 	b := make([]byte, size)
@@ -153,6 +153,9 @@ func c13Request(s *c13Sys, thread int, kind string, size int) string {
 	js, _ := protojson.Marshal(msg)
 	js = compactJSON(js)
 	sc := &env.Script{MaxRead: 24}
+	if strings.Contains(kind, "corrupt") || strings.Contains(kind, "oversize") || kind == "web-gzip" {
+		sc.MaxRead = 0 // whole body in one read: these kinds are about what the pools are left with, not about read boundaries
+	}
 	hook := func(r *callResult) {}
 	_ = hook
 	body := func(data []byte) reqBody { return reqBody{Data: data, Script: sc, CL: -1} }
@@ -185,6 +188,22 @@ func c13Request(s *c13Sys, thread int, kind string, size int) string {
 		res = doGRPCSched(s.mux, "/vs.T/Bidi", "application/grpc+proto", http.Header{"Grpc-Encoding": {"gzip"}}, body(append(wire.GRPCFrame(1, gzipBytes(pb)), wire.GRPCFrame(1, gzipBytes(pb))...)))
 	case "web":
 		res = doWebSched(s.mux, "/vs.T/Unary", "application/grpc-web+proto", body(wire.GRPCFrame(0, pb)))
+	case "web-gzip":
+		// server-streaming over gRPC-web with gzip negotiated: compressed reply frames, then the trailer frame
+		res = doWebSchedHdr(s.mux, "/vs.T/Bidi", "application/grpc-web+proto", http.Header{"Grpc-Encoding": {"gzip"}}, body(append(wire.GRPCFrame(1, gzipBytes(pb)), wire.GRPCFrame(1, gzipBytes(pb))...)))
+	case "grpc-gzip-corrupt":
+		// failing requests: a good gzip message, then one whose gzip trailer (CRC, length) is cut
+		// off - the decompressor produces output and then fails
+		z := gzipBytes(pb)
+		res = doGRPCSched(s.mux, "/vs.T/Bidi", "application/grpc+proto", http.Header{"Grpc-Encoding": {"gzip"}}, body(append(wire.GRPCFrame(1, gzipBytes(pb)), wire.GRPCFrame(1, z[:len(z)-8])...)))
+	case "grpc-gzip-oversize":
+		// … and one that decompresses beyond the receive limit
+		bigMsg := s.t.newReq("", append([]byte(tag+":"), make([]byte, 400)...), 0)
+		bigPB, _ := proto.Marshal(bigMsg)
+		res = doGRPCSched(s.mux, "/vs.T/Bidi", "application/grpc+proto", http.Header{"Grpc-Encoding": {"gzip"}}, body(append(wire.GRPCFrame(1, gzipBytes(pb)), wire.GRPCFrame(1, gzipBytes(bigPB))...)))
+	case "http-gzip-corrupt":
+		z := gzipBytes(js)
+		res = doHTTPSched(s.mux, "POST", "/t/unary", http.Header{"Content-Type": {"application/json"}, "Content-Encoding": {"gzip"}}, body(z[:len(z)-8]))
 	default:
 		panic(kind)
 	}
@@ -201,7 +220,7 @@ func c13Request(s *c13Sys, thread int, kind string, size int) string {
 		parts = append(parts, "parse-error:"+res.ParseErr)
 	}
 	switch {
-	case strings.HasPrefix(kind, "grpc") || kind == "web":
+	case strings.HasPrefix(kind, "grpc") || strings.HasPrefix(kind, "web"):
 		for _, p := range res.Msgs {
 			m := dynamicpb.NewMessage(s.t.rsp)
 			if err := proto.Unmarshal(p, m); err != nil {
@@ -280,8 +299,16 @@ func doGRPCSched(m http.Handler, full, ct string, hdr http.Header, body reqBody)
 }
 
 func doWebSched(m http.Handler, full, ct string, body reqBody) *callResult {
+	return doWebSchedHdr(m, full, ct, nil, body)
+}
+
+func doWebSchedHdr(m http.Handler, full, ct string, hdr http.Header, body reqBody) *callResult {
 	rd, _ := schedReader(body)
-	req := newPostRequest(full, http.Header{"Content-Type": {ct}}, rd, int64(len(body.Data)))
+	if hdr == nil {
+		hdr = http.Header{}
+	}
+	hdr.Set("Content-Type", ct)
+	req := newPostRequest(full, hdr, rd, int64(len(body.Data)))
 	rec := env.NewRecorder()
 	rec.OnWrite = func([]byte) { sched.Point("response write", nil) }
 	p, txt := guard(func() { m.ServeHTTP(rec, req) })
@@ -365,6 +392,8 @@ func c13Scenarios(thorough bool) []*e3Scenario {
 		{"http-json", "http-json"}, {"http-json-gzip", "http-json-gzip"}, {"http-body", "http-upload"}, {"grpc", "grpc-gzip"},
 		{"grpc-gzip", "grpc-gzip"}, {"http-stream-gzip", "http-json-gzip"}, {"web", "http-json"}, {"http-upload", "http-upload"},
 		{"grpc-gzip", "http-json-gzip"}, {"http-body", "grpc"}, {"http-stream-2in1", "http-json"}, {"http-stream-2in1", "grpc"},
+		// a failing request next to a good one that uses the same pools
+		{"grpc-gzip-corrupt", "grpc-gzip"}, {"grpc-gzip-oversize", "web-gzip"}, {"http-gzip-corrupt", "http-json-gzip"}, {"grpc-gzip-oversize", "grpc-gzip"},
 	}
 	if thorough {
 		pairs = nil
@@ -375,7 +404,14 @@ func c13Scenarios(thorough bool) []*e3Scenario {
 		}
 	}
 	for _, p := range pairs {
-		scs = append(scs, c13Scenario([]string{p[0], p[1]}, []int{20, 34}))
+		sc := c13Scenario([]string{p[0], p[1]}, []int{20, 34})
+		if !thorough && (strings.Contains(p[0], "grpc-gzip-") || strings.Contains(p[1], "grpc-gzip-")) {
+			// two-message gzip streams have ~80 choice points per execution: in the quick tier
+			// these pairs are explored to 1 deviation (what a failed request leaves in the pools
+			// shows already when the two requests run one after the other)
+			sc.BoundCap = 1
+		}
+		scs = append(scs, sc)
 	}
 	if thorough {
 		scs = append(scs, c13Scenario([]string{"grpc-gzip", "http-json-gzip", "http-upload"}, []int{20, 34, 27}),
@@ -390,7 +426,7 @@ func runC13(c *Ctx) {
 	if c.Thorough() {
 		bound, per = 3, 8*time.Minute
 	}
-	r.Rule(fmt.Sprintf("pairs (thorough: all 45 pairs and two triples) of concurrent requests over kinds {HTTP JSON, HTTP JSON with gzip body, HttpBody unary echo, HttpBody chunked upload, gRPC identity, gRPC gzip bidi, gRPC-web, HTTP JSON stream with gzip body, HTTP JSON stream with two messages in one read} with distinct self-describing payloads on one Mux with a small receive limit; scheduling points: pool Get/Put (plus the environment answer 'pool emptied by GC'), WaitGroup ops, every body Read (24-byte chunks) and response Write, handler steps; every interleaving with at most %d deviations (preemptions + pool-emptied answers), bounds iterated from 0; oracle per schedule: every response and every handler-seen message equals the request's solo run, request messages and returned reply messages retained by handlers are unchanged at the end, no panic, no deadlock; plus the free-running -race pass over the same bodies", bound))
+	r.Rule(fmt.Sprintf("pairs (thorough: all 91 pairs and two triples) of concurrent requests over kinds {gRPC-web with gzip, failing requests (gzip message with its trailer cut off, gzip message that decompresses beyond the limit, HTTP body with a cut gzip stream), HTTP JSON, HTTP JSON with gzip body, HttpBody unary echo, HttpBody chunked upload, gRPC identity, gRPC gzip bidi, gRPC-web, HTTP JSON stream with gzip body, HTTP JSON stream with two messages in one read} with distinct self-describing payloads on one Mux with a small receive limit; scheduling points: pool Get/Put (plus the environment answer 'pool emptied by GC'), WaitGroup ops, every body Read (24-byte chunks) and response Write, handler steps; every interleaving with at most %d deviations (preemptions + pool-emptied answers), bounds iterated from 0; oracle per schedule: every response and every handler-seen message equals the request's solo run, request messages and returned reply messages retained by handlers are unchanged at the end, no panic, no deadlock; plus the free-running -race pass over the same bodies", bound))
 	r.Assume("proxied streams are covered by C10's scenarios and its -race pass", "races inside grpc-go / net/http are outside the scheduler")
 	runScenarios(c, c13Scenarios(c.Thorough()), bound, per, 0)
 	if c.Shards == 0 {
